@@ -116,6 +116,17 @@ func init() {
 	extendProp("C17", "empty-list-literal: the printer tells an absent list from a present one by nil-ness, the formatter by length; they agree because the grammars never put an empty non-nil list into a node or carrier - the only empty list literals in the actions are the values of empty list productions (seed C17-13: the placeholder of `new class {` without parentheses got `Arguments: []ast.Vertex{}`; printed `new class() {}`, which parses into another tree, and formatting it again changes the text back).",
 		[]report.Floor{{Rule: "empty-list-literal", What: "literals", Min: 10}},
 		func(c *Ctx) { defer c.cleanup(); c.flows_("empty-list-literal") })
+	extendProp("C11", "single-consumer: in the command the goroutine that receives the parsed files from a channel and prints, dumps or resolves them (found by what it does) is started exactly once and not in a loop - several of them write to the one standard output at the same time and the dumps of different files interleave (round 6 seed: one printer goroutine per CPU).",
+		[]report.Floor{{Rule: "single-consumer", What: "consumers", Min: 1}},
+		func(c *Ctx) {
+			c.Fixture("mini", "single-consumer", true, func(p *load.Program, tb *kinds.Table) *report.RuleResult {
+				w, _ := effects.NewWorld(p)
+				r := effects.SingleConsumer(w, "cmd/goodcli")
+				r.Merge(effects.SingleConsumer(w, "cmd/badcli"), "bad:")
+				return r
+			})
+			c.ssaRepo("single-consumer", func(w *effects.World) *report.RuleResult { return effects.SingleConsumer(w, "cmd/php-parser") })
+		})
 	extendProp("C14", "presence-oracle: which slots of which node kinds a silently parsed tree may leave empty equals the reviewed table - a name node's kind is told by its tokens (a NameRelative has its `namespace` keyword, a NameFullyQualified its leading separator), and the resolver chooses the rule by kind (seed C14-13: `\\Vendor\\X` in a PHP 5 constant expression built as a NameRelative without the keyword, resolved against the current namespace).",
 		[]report.Floor{{Rule: "presence-oracle", What: "slots", Min: 1100}},
 		func(c *Ctx) { defer c.cleanup(); c.presenceOracle() })
